@@ -118,6 +118,10 @@ func c01GenRuleText(r *rng) string {
 		}
 	case 2, 3: // $domain rules with short patterns (domains table), incl. wildcard TLD
 		pool := append(append([]string{}, poolDomains...), poolWildDomains...)
+		if r.chance(1, 3) {
+			// the value is a PARENT of the pages' hosts, often a public suffix (co.uk, blogspot.com, kawasaki.jp, org)
+			pool = r1DotSuffixes(poolDomains)
+		}
 		pat := pick(r, c01Short)
 		if r.chance(1, 4) {
 			pat = pick(r, c01Stems) // long shortcut AND $domain: shortcuts table wins
@@ -231,7 +235,8 @@ type c01Scenario struct {
 	nets    []*rules.NetworkRule
 	texts   []string
 	note    string
-	coll    []string // texts of a text-hash collision pair present in the scenario
+	coll    []string     // texts of a text-hash collision pair present in the scenario
+	long    []r1LongRule // rule lines longer than the lists' read buffer
 }
 
 func c01BuildScenario(r *rng) *c01Scenario { return c01BuildScenarioWith(r, c01GenRuleText) }
@@ -279,22 +284,18 @@ func c01BuildScenarioWith(r *rng, genText func(*rng) string) *c01Scenario {
 		l := r.n(nLists)
 		bodies[l] = append(bodies[l], t)
 	}
-	if r.chance(1, 5) {
-		// rule lines longer than the scanner's 4096-byte read buffer, landing in the $domain index / the
-		// sequential table (no usable shortcut): a long $domain list, a long $client list
-		var ds []string
-		for k := 0; k < 280+r.n(60); k++ {
-			ds = append(ds, fmt.Sprintf("d%03d.%s", k, pick(r, poolDomains)))
-		}
-		tail := pick(r, poolDomains)
-		for _, t := range []string{
-			pick(r, c01Short) + "$domain=" + strings.Join(ds, "|") + "|" + tail,
-			pick(r, c01Short) + "$client=" + strings.ReplaceAll(strings.Join(ds, "|"), ".", "-") + "|tailclient",
-		} {
-			if _, err := rules.NewNetworkRule(t, 1); err == nil && r.chance(2, 3) {
-				all = append(all, t)
+	var long []r1LongRule
+	if r.chance(1, 4) {
+		// rule lines longer than the 4096-byte read buffer of the scanner and of FileRuleList.RetrieveRule (4-20 KiB:
+		// long $domain / $client / $ctag / $denyallow lists, long paths), landing in each of the three tables
+		for _, lr := range r1LongRuleTexts(r, c01Short, c01Stems, len(all) <= 10) {
+			if _, err := rules.NewNetworkRule(lr.text, 1); err == nil {
+				long = append(long, lr)
+				all = append(all, lr.text)
 				l := r.n(nLists)
-				bodies[l] = append(bodies[l], t)
+				// anywhere in the list: first line, between short rules, last line
+				pos := r.n(len(bodies[l]) + 1)
+				bodies[l] = append(bodies[l][:pos], append([]string{lr.text}, bodies[l][pos:]...)...)
 			}
 		}
 	}
@@ -320,6 +321,11 @@ func c01BuildScenarioWith(r *rng, genText func(*rng) string) *c01Scenario {
 	}
 	var lists []filterlist.RuleList
 	var note []string
+	// FILE-backed lists (real temporary files): retrieval goes through FileRuleList.RetrieveRule; all lists, or a mix
+	fileMode := r.n(4) // 0,1: strings only; 2: files only; 3: mixed
+	if len(long) > 0 && r.chance(1, 2) {
+		fileMode = 2
+	}
 	for i, b := range mb {
 		text := strings.Join(b.lines, "\n") + "\n"
 		if b.lines == nil && r.chance(1, 2) {
@@ -329,14 +335,22 @@ func c01BuildScenarioWith(r *rng, genText func(*rng) string) *c01Scenario {
 		if b.ign != nil {
 			ign = *b.ign
 		}
-		lists = append(lists, &filterlist.StringRuleList{ID: ids[i], RulesText: text, IgnoreCosmetic: ign})
-		note = append(note, fmt.Sprintf("[%d] %s", ids[i], strings.Join(b.lines, " ¶ ")))
+		if r.chance(1, 8) && b.lines != nil {
+			text = strings.TrimSuffix(text, "\n") // the last line without a line break
+		}
+		fileBacked := fileMode == 2 || (fileMode == 3 && r.chance(1, 2))
+		lists = append(lists, r1NewList(ids[i], text, ign, fileBacked))
+		kind := ""
+		if fileBacked {
+			kind = " file"
+		}
+		note = append(note, fmt.Sprintf("[%d%s] %s", ids[i], kind, r1ShortNote(strings.Join(b.lines, " ¶ "))))
 	}
 	s, err := filterlist.NewRuleStorage(lists)
 	if err != nil {
 		panic(err)
 	}
-	sc := &c01Scenario{storage: s, engine: urlfilter.NewNetworkEngine(s), note: strings.Join(note, " ‖ "), coll: coll}
+	sc := &c01Scenario{storage: s, engine: urlfilter.NewNetworkEngine(s), note: strings.Join(note, " ‖ "), coll: coll, long: long}
 	// the reference rule set is read list by list (one scanner per list), NOT through the storage scanner the
 	// engine is built from: what the storage scanner skips must show up as a difference
 	var items []string
@@ -411,6 +425,18 @@ func c01Source(r *rng, f *rules.NetworkRule) string {
 		d = strings.TrimSuffix(d, "*") + pick(r, []string{"com", "co.uk", "de", "org", "notatld"})
 	}
 
+	if r.chance(1, 3) {
+		// a host of the pool living below the permitted domain (the value is its parent / its public suffix)
+		var below []string
+		for _, h := range poolDomains {
+			if strings.HasSuffix(h, "."+d) {
+				below = append(below, h)
+			}
+		}
+		if len(below) > 0 {
+			d = pick(r, below)
+		}
+	}
 	if r.chance(1, 6) {
 		d = mutateCase(r, d) // the source host as written: it is not lower-cased for the $domain tests
 	}
@@ -441,12 +467,40 @@ func c01AimAt(r *rng, text string) *rules.Request {
 	return q
 }
 
+// c01AimAtLong builds a request that satisfies the long modifier of a long rule line (mostly its LAST list
+// item, which only a complete read of the line delivers).
+func c01AimAtLong(r *rng, sc *c01Scenario, lr r1LongRule) *rules.Request {
+	var u string
+	switch r.n(4) {
+	case 0:
+		u = c01URL(r, sc)
+	default:
+		u = urlAround(r, lr.urlFor)
+	}
+	src := genSourceURL(r)
+	if lr.source != "" && r.chance(5, 6) {
+		src = pick(r, []string{"http://", "https://"}) + pick(r, []string{"", "", "www.", "d0001."}) + lr.source + pick(r, []string{"", "/", "/page"})
+	}
+	q := rules.NewRequest(u, src, pick(r, poolReqTypes))
+	if lr.client != "" && r.chance(5, 6) {
+		q.ClientName = pick(r, []string{lr.client, lr.client, "d0000-example-org", "d0001-" + strings.ReplaceAll(pick(r, poolDomains), ".", "-")})
+	}
+	if lr.tag != "" && r.chance(5, 6) {
+		q.SortedClientTags = []string{pick(r, []string{lr.tag, lr.tag, "d0000_example_org"})}
+	}
+
+	return q
+}
+
 func c01Request(r *rng, sc *c01Scenario) *rules.Request {
 	if len(sc.coll) > 0 && r.chance(1, 2) {
 		return c01AimAt(r, pick(r, sc.coll))
 	}
 	if r.chance(1, 6) {
 		return hostnameRequest(genDNSRequest(r, sc.texts))
+	}
+	if len(sc.long) > 0 && r.chance(1, 2) {
+		return c01AimAtLong(r, sc, pick(r, sc.long))
 	}
 	f := pick(r, sc.nets)
 	var u string
